@@ -5,9 +5,11 @@ CONSTANTS
   MCKinds <- KindsAll
   Classes <- AllClasses
   MCFuns <- FewFuns
+  MCHows <- FewHows
   Canonical = FALSE
+  AliasInit = FALSE
   EmitOn = FALSE
-CONSTRAINT Smaller
+CONSTRAINT Tiny
 VIEW absvars
-INVARIANTS TypeOK EqualityLaws
-PROPERTIES Propagation NeverEvaluated DivTargetKept SelectLaw ValueOrLaw OperandsKept
+INVARIANTS TypeOK EqualityLaws AliasCoherent
+PROPERTIES Propagation NeverEvaluated DivTargetKept SelectLaw ValueOrLaw OperandsKept OwnersKept
